@@ -24,9 +24,14 @@ class Gen:
     # -- helpers ----------------------------------------------------------------------------------
     def key(self, store: bool) -> int:
         r = self.r
+        if 0 not in self.keys_used and r.random() < 0.15:
+            self.keys_used.append(0)                   # a legal but falsy id
+            return 0
         if store and self.keys_used and r.random() < 0.12:
             return r.choice(self.keys_used)           # duplicate id
         k = 100 + len(self.keys_used)
+        while k in self.keys_used:
+            k += 1
         self.keys_used.append(k)
         return k
 
@@ -52,7 +57,7 @@ class Gen:
             elif p < 0.20:
                 t = self.now - r.choice([52 * Q, U, 10 * U])     # too far in the past -> error
             elif p < 0.35 and self.targets:
-                t = r.choice(self.targets)                     # equal run times
+                t = r.choice(self.targets) + r.choice([0, 0, 0, 500_000, -300_000])   # equal / almost equal run times
                 if t < self.now:
                     t = self.now + self.delay()
             else:
@@ -81,7 +86,7 @@ class Gen:
         p = r.random()
         if fut and p < 0.55:
             t = fut[0] if r.random() < 0.7 else r.choice(fut)
-            d = t - self.now + r.choice([0, 0, 0, -Q, Q, 0, 3 * Q])
+            d = t - self.now + r.choice([0, 0, 0, -Q, Q, 0, 3 * Q, -500_000, -100_000, 400_000])
         elif p < 0.65:
             d = 0
         elif p < 0.75:
